@@ -137,7 +137,12 @@ func RandomFlateSetting(r *gen.Rand) Setting {
 }
 
 func MakeDict(r *gen.Rand) []byte {
-	switch r.Intn(3) {
+	switch r.Intn(5) {
+	case 3:
+		// longer than one and than two windows: only the last 32 KiB count
+		return gen.Make(r, "text", r.Pick(32769, 40000, 65536, 65537, 70000, 100000)).B
+	case 4:
+		return r.Bytes(r.Pick(65537, 80000, 100000))
 	case 0:
 		return []byte("the quick brown fox compress deflate window huffman")
 	case 1:
@@ -478,4 +483,65 @@ func synthDictStream(r *gen.Rand, dict []byte, n int) (stream, plain []byte) {
 		s.Dynamic(true, toks, sp, true)
 	}
 	return s.W.Bytes(), full[len(dict):]
+}
+
+// dictSlices builds data out of pieces of the dictionary (from every region of
+// it, not only the part a decoder keeps) and some noise.
+func dictSlices(r *gen.Rand, dict []byte, n int) []byte {
+	out := make([]byte, 0, n+300)
+	for len(out) < n {
+		if r.Chance(1, 4) || len(dict) < 8 {
+			out = append(out, r.Bytes(r.Range(1, 20))...)
+			continue
+		}
+		l := r.Range(4, 300)
+		if l > len(dict) {
+			l = len(dict)
+		}
+		var at int
+		switch r.Intn(3) {
+		case 0:
+			at = r.Intn(len(dict) - l + 1)
+		case 1: // the tail every decoder keeps
+			lo := len(dict) - 32768
+			if lo < 0 {
+				lo = 0
+			}
+			at = lo + r.Intn(len(dict)-l-lo+1)
+		default: // the region between one and two windows from the start
+			lo, hi := 32768, 65536
+			if hi > len(dict)-l {
+				hi = len(dict) - l
+			}
+			if lo > hi {
+				lo = 0
+			}
+			if hi < lo {
+				hi = lo
+			}
+			at = lo + r.Intn(hi-lo+1)
+		}
+		out = append(out, dict[at:at+l]...)
+	}
+	return out[:n]
+}
+
+// halvingData: symbol i occurs 2^(top-i) times (shuffled), so the code lengths
+// form a chain up to the 15-bit limit; pad copies of the most frequent symbol in
+// front shift the bit phase at the end; the last three bytes are symbols that
+// occur nowhere else (they and the end-of-block code get the longest codes).
+func halvingData(r *gen.Rand, top, pad int) []byte {
+	perm := r.Perm(256)
+	var base []byte
+	for i := 0; i <= top; i++ {
+		for k := 0; k < 1<<uint(top-i); k++ {
+			base = append(base, byte(perm[i]))
+		}
+	}
+	for i := len(base) - 1; i > 0; i-- {
+		k := r.Intn(i + 1)
+		base[i], base[k] = base[k], base[i]
+	}
+	out := append(bytes.Repeat([]byte{byte(perm[0])}, pad), base...)
+	return append(out, byte(perm[200]), byte(perm[201]), byte(perm[202]))
 }
